@@ -479,9 +479,10 @@ func (s *Serf) UserEvent(name string, payload []byte, coalesce bool) error {
 		)
 	}
 
-	// Create a message
+	// Create a message. The time is taken and the clock advanced in a single
+	// atomic step, so that concurrent calls never share a Lamport time.
 	msg := messageUserEvent{
-		LTime:   s.eventClock.Time(),
+		LTime:   s.eventClock.Increment() - 1,
 		Name:    name,
 		Payload: payload,
 		CC:      coalesce,
@@ -508,8 +509,6 @@ func (s *Serf) UserEvent(name string, payload []byte, coalesce bool) error {
 			UserEventSizeLimit,
 		)
 	}
-
-	s.eventClock.Increment()
 
 	// Process update locally
 	s.handleUserEvent(&msg)
@@ -552,9 +551,11 @@ func (s *Serf) Query(name string, payload []byte, params *QueryParam) (*QueryRes
 		flags |= queryFlagAck
 	}
 
-	// Create a message
+	// Create a message. The time is taken and the clock advanced in a single
+	// atomic step, so that concurrent calls never share a Lamport time (the
+	// query responses are keyed by it).
 	q := messageQuery{
-		LTime:       s.queryClock.Time(),
+		LTime:       s.queryClock.Increment() - 1,
 		ID:          uint32(rand.Int31()),
 		Addr:        local.Addr,
 		Port:        local.Port,
